@@ -1086,7 +1086,12 @@ impl Engine for SrcSim {
         // 1 in 100 cases (quick) is a long-input case around the 512-token batch / 8 KiB buffer constants
         let long_every = if tier == "thorough" { 200 } else { 100 };
         if idx % long_every == long_every - 1 {
-            let n = match rng.below(10) {
+            // (one long case in twelve is VERY long: growth strategies of caches and buffers, offsets that
+            // no longer fit narrow integer types, thresholds far beyond the two documented constants)
+            let very_long = rng.chance(1, 12);
+            let n = match if very_long { 10 + rng.below(2) } else { rng.below(10) } {
+                10 => rng.log_range(20_000, 70_000) as usize,
+                11 => rng.log_range(70_000, if tier == "thorough" { 600_000 } else { 140_000 }) as usize,
                 0 => 511,
                 1 => 512,
                 2 => 513,
